@@ -4,6 +4,7 @@
 // domain (|coeff| < 2^50, min(|a|_1 |b|_inf, |a|_inf |b|_1) < 2^52), plus complete small scopes.
 // Oracle: exact __int128 negacyclic product; accept iff |res - exact| <= E + 1/2 with
 // E = 8 log2(N) 2^-53 (|a|_1 |b|_2 + |a|_2 |b|_1) computed in binary128 from the exact norms.
+#include "../harness/giant.hpp"
 #include <quadmath.h>
 #include "../harness/apiops.hpp"
 using namespace vf;
@@ -233,11 +234,13 @@ int main(int argc, char** argv) {
     if (it.kind == 1) run_scope(ctx, it.N, it.R, it.cfg, it.a, it.b);
     else run_N(ctx, it.N, it.cfg, it.a, it.b, it.kind == 2);
   });
+  // thorough: DFT / big vectors beyond 4 GiB (8193 limbs at N = 65536): the transform pair must return small integers exactly on every limb
+  if ((th || getenv("VERIF_GIANT")) && giant_memory_ok()) ctx.parallel(2, [&](uint64_t i) { giant_dft_roundtrip(ctx, FFT64, (int)i); }, "giant vectors (> 4 GiB)");
   ctx.assumptions = {"only operand pairs inside the documented domain are generated (the generator evaluates the norms exactly); pairs outside are skipped and counted",
                      "E is evaluated in binary128 from the exact norms; equality is therefore demanded whenever E < 1/2",
                      "'every input in the budget' is decided on the pattern alphabet and the complete small scopes; the FFT's worst case over all real vectors is not enumerable"};
   return ctx.finish("exploration",
                     "N x cfg x 12x12 operand patterns (constant, alternating, root-resonant sign patterns, monomials, ramp, seeded) x 3 magnitude regimes (2^50-1 limit with the largest admissible partner; both near 2^26/sqrt(N); E just below 1/2) x 3 paths x svp shapes "
-                    "((res,a) in {0..3}^2 x 2 strides for N<=64); complete scopes N=2 [-3,3] and N=4 [-2,2] (all 392k pairs; thorough adds N=4 [-3,3] and N=8 [-1,1], 48.8M pairs); distinct = distinct case ids",
+                    "((res,a) in {0..3}^2 x 2 strides for N<=64); complete scopes N=2 [-3,3] and N=4 [-2,2] (all 392k pairs; thorough adds N=4 [-3,3] and N=8 [-1,1], 48.8M pairs); thorough (when 20 GiB are available): vec_znx_dft + both inverse DFTs on vectors of more than 4 GiB; distinct = distinct case ids",
                     true);
 }
